@@ -72,6 +72,9 @@ package journal
 // an entry the update reports (C14)
 //@ pure func liveOK(a StopTime, u *gtfs.StopTimeUpdate, t time.Time) bool = a.StopID == stopIDOf(u) && a.ArrivalTime == arrivalOf(u) && a.DepartureTime == departureOf(u) && a.Track == u.NyctTrack && a.LastObserved == t && a.MarkedPast == nil
 //@ pure func vehicleIDOf(t *gtfs.Trip) string = (t.Vehicle == nil || t.Vehicle.ID == nil) ? "" : t.Vehicle.ID.ID
+// C15: "one entry per distinct (start instant, trip-id suffix)": the UID is the decimal Unix start time followed by
+// the trip id without its 6 character prefix
+//@ pure func uidOf(t *gtfs.Trip) string = itoa((ns(t.ID.StartDate) + t.ID.StartTime) / 1000000000) + tripIDSuffix(t.ID.ID)
 //@ pure func ignored(trip *Trip, tripUpdate *gtfs.Trip) bool = trip.IsAssigned && tripUpdate.Vehicle == nil
 
 //@ func (*Trip).update
@@ -79,10 +82,12 @@ package journal
 //@   requires trip != nil && tripUpdate != nil
 //@   ensures [ignored-update-changes-nothing] old(ignored(trip, tripUpdate)) ==> *trip == old(*trip) && (forall j int :: 0 <= j && j < len(trip.StopTimes) ==> trip.StopTimes[j] == old(trip.StopTimes[j]))
 //@   ensures [identifiers] !old(ignored(trip, tripUpdate)) ==> trip.TripID == tripUpdate.ID.ID && trip.RouteID == tripUpdate.ID.RouteID && trip.DirectionID == tripUpdate.ID.DirectionID && ns(trip.StartTime) == ns(tripUpdate.ID.StartDate) + tripUpdate.ID.StartTime && trip.VehicleID == vehicleIDOf(tripUpdate)
+//@   ensures [uid] !old(ignored(trip, tripUpdate)) ==> trip.TripUID == uidOf(tripUpdate)
 //@   ensures [accounting] !old(ignored(trip, tripUpdate)) ==> trip.IsAssigned == (old(trip.IsAssigned) || tripUpdate.Vehicle != nil) && trip.NumUpdates == old(trip.NumUpdates) + 1 && trip.LastObserved == feedCreatedAt && trip.MarkedPast == nil
 //@   ensures [ends-with-the-update] !old(ignored(trip, tripUpdate)) ==> len(trip.StopTimes) == len(p.past) + len(tripUpdate.StopTimeUpdates) && (forall k int :: 0 <= k && k < len(tripUpdate.StopTimeUpdates) ==> liveOK(trip.StopTimes[len(p.past) + k], &tripUpdate.StopTimeUpdates[k], feedCreatedAt))
 //@   ensures [passed-stops-kept] !old(ignored(trip, tripUpdate)) ==> len(p.past) <= len(old(trip.StopTimes)) && (forall j int :: 0 <= j && j < len(p.past) ==> pastOK(trip.StopTimes[j], old(trip.StopTimes[j]), feedCreatedAt))
 //@   ensures [nothing-before-first-update-stop-dropped] !old(ignored(trip, tripUpdate)) && len(tripUpdate.StopTimeUpdates) > 0 ==> (forall j int :: 0 <= j && j < len(p.past) ==> old(trip.StopTimes[j]).StopID != stopIDOf(&tripUpdate.StopTimeUpdates[0]))
+//@   assigns *trip, elems(trip.StopTimes)
 //@   loop 1 invariant trip != nil && trip.StopTimes == pre(trip.StopTimes)
 //@   loop 1 invariant forall j int :: 0 <= j && j < $i ==> pastOK(trip.StopTimes[j], old(trip.StopTimes[j]), feedCreatedAt)
 //@   loop 1 invariant forall j int :: $i <= j && j < len(trip.StopTimes) ==> trip.StopTimes[j] == old(trip.StopTimes[j])
@@ -91,6 +96,7 @@ package journal
 //@   loop 2 invariant forall k int :: 0 <= k && k < $i ==> liveOK(trip.StopTimes[len(p.past) + k], &tripUpdate.StopTimeUpdates[k], feedCreatedAt)
 //@   loop 2 invariant forall j int :: len(p.past) + $i <= j && j < len(trip.StopTimes) ==> trip.StopTimes[j] == old(trip.StopTimes[j])
 //@   loop 3 invariant trip != nil && len(trip.StopTimes) == len(p.past) + len(p.updated) + $i
+//@   loop 3 invariant fresh(trip.StopTimes) || (obj(trip.StopTimes) == obj(old(trip.StopTimes)) && off(trip.StopTimes) == off(old(trip.StopTimes)) && cap(trip.StopTimes) == cap(old(trip.StopTimes)))
 //@   loop 3 invariant forall j int :: 0 <= j && j < len(p.past) ==> pastOK(trip.StopTimes[j], old(trip.StopTimes[j]), feedCreatedAt)
 //@   loop 3 invariant forall k int :: 0 <= k && k < len(p.updated) + $i ==> liveOK(trip.StopTimes[len(p.past) + k], &tripUpdate.StopTimeUpdates[k], feedCreatedAt)
 
@@ -106,3 +112,43 @@ package journal
 //@   loop 1 invariant forall j int :: 0 <= j && j < i ==> pastOK(trip.StopTimes[j], old(trip.StopTimes[j]), feedCreatedAt)
 //@   loop 1 invariant forall j int :: i <= j && j < len(trip.StopTimes) ==> trip.StopTimes[j] == old(trip.StopTimes[j])
 //@   loop 1 decreases len(trip.StopTimes) - i
+
+// ----------------------------------------------------------------------------------------------------------------
+// C15 — BuildJournal
+
+//@ func BuildJournal
+//@   props C15 C05
+//@   requires source != nil
+//@   ensures [result] result != nil && fresh(result)
+//@   ensures [sorted-by-uid] forall a int, b int :: 0 <= a && a < b && b < len(result.Trips) ==> result.Trips[a].TripUID <= result.Trips[b].TripUID
+//@   loop 1 invariant trips != nil && activeTrips != nil && fresh(trips)
+//@   loop 1 invariant forall u string :: has(trips, u) ==> trips[u] != nil && fresh(trips[u])
+//@   loop 1 invariant forall u string :: has(activeTrips, u) ==> has(trips, u)
+//@   loop 1 decreases feedsLeft() + (feedMessage != nil ? 1 : 0)
+//@   loop 1 invariant [uid-is-key] forall u string :: has(trips, u) ==> trips[u].TripUID == u
+//@   loop 2 invariant [a] trips != nil && newActiveTrips != nil
+//@   loop 2 invariant [b] fresh(trips) && fresh(newActiveTrips)
+//@   loop 2 invariant [c] newActiveTrips != activeTrips && activeTrips != nil
+//@   loop 2 invariant forall u string :: has(trips, u) ==> trips[u] != nil && fresh(trips[u])
+//@   loop 2 invariant forall u string :: has(activeTrips, u) ==> has(trips, u)
+//@   loop 2 invariant forall u string :: has(newActiveTrips, u) ==> has(trips, u)
+//@   loop 2 invariant [uid-is-key] forall u string :: has(trips, u) ==> trips[u].TripUID == u
+//@   loop 3 invariant trips != nil && activeTrips != nil
+//@   loop 3 invariant forall u string :: has(trips, u) ==> trips[u] != nil && fresh(trips[u])
+//@   loop 3 invariant forall u string :: has(activeTrips, u) ==> has(trips, u)
+//@   loop 3 invariant forall u string :: has(newActiveTrips, u) ==> has(trips, u)
+//@   loop 3 invariant [uid-is-key] forall u string :: has(trips, u) ==> trips[u].TripUID == u
+//@   loop 4 invariant trips != nil && (forall u string :: has(trips, u) ==> trips[u] != nil)
+//@   loop 4 invariant forall k int :: 0 <= k && k < len(tripIDs) ==> has(trips, tripIDs[k])
+//@   loop 4 invariant fresh(tripIDs)
+//@   loop 4 invariant [uid-is-key] forall u string :: has(trips, u) ==> trips[u].TripUID == u
+//@   loop 5 invariant forall k int :: 0 <= k && k < len(tripIDs) ==> has(trips, tripIDs[k])
+//@   loop 2 step [trips-in-the-feed-are-active] newActiveTrips[uidOf(&feedMessage.Trips[athead(2, $i)])]
+//@   loop 3 step [present-trips-not-marked] newActiveTrips[tripUID] ==> *trips[tripUID] == athead(3, *trips[tripUID])
+//@   loop 3 step [vanished-trips-marked-once] !newActiveTrips[tripUID] ==> trips[tripUID].MarkedPast != nil && (athead(3, trips[tripUID].MarkedPast) == nil ==> *trips[tripUID].MarkedPast == createdAt) && (athead(3, trips[tripUID].MarkedPast) != nil ==> trips[tripUID].MarkedPast == athead(3, trips[tripUID].MarkedPast))
+//@   loop 4 step [selected-iff-in-window-and-assigned] (len(tripIDs) == athead(4, len(tripIDs)) + 1 && tripIDs[len(tripIDs) - 1] == tripID && !(ns(trip.StartTime) < ns(startTime)) && !(ns(endTime) < ns(trip.StartTime)) && trip.IsAssigned) || (tripIDs == athead(4, tripIDs) && (ns(trip.StartTime) < ns(startTime) || ns(endTime) < ns(trip.StartTime) || !trip.IsAssigned))
+//@   loop 5 invariant sinceLoop(j.Trips) && (forall u string :: has(trips, u) ==> beforeLoop(trips[u]))
+//@   loop 5 invariant j != nil && fresh(j) && trips != nil && (forall u string :: has(trips, u) ==> trips[u] != nil)
+//@   loop 5 invariant [uid-is-key] forall u string :: has(trips, u) ==> trips[u].TripUID == u
+//@   loop 5 invariant [ids-sorted] forall a int, b int :: 0 <= a && a < b && b < len(tripIDs) ==> tripIDs[a] <= tripIDs[b]
+//@   loop 5 invariant [one-per-id] len(j.Trips) == $i && (forall k int :: 0 <= k && k < $i ==> j.Trips[k].TripUID == tripIDs[k])
